@@ -14,6 +14,8 @@ c.may_raise('RecursionError', 'encoded_payload is not None', ensures=[('nothing-
 c.may_raise('KeyError', 'encoded_payload is not None and encoded_payload.startswith("d=")',
             ensures=[('nothing-kept', 'self.packets == []')])
 c.ensures('given', 'implies(encoded_payload is None, self.packets == (packets or []))')
+c.ensures('given-packets-untouched', "implies(encoded_payload is None, unchanged('Packet.binary', "
+          "'Packet.packet_type', 'Packet.data', 'Packet.encode_cache'))")
 c.ensures('decoded', 'implies(encoded_payload is not None and len(encoded_payload) > 0, '
           'len(self.packets) == len(payload_body(encoded_payload).split("\\x1e")) and '
           'len(self.packets) <= 16 and '
